@@ -108,8 +108,13 @@ func (x *h) Apply(op seqmc.Op) *seqmc.Fail {
 		if got < 0 || got >= x.s.Len() || x.s.Get(got) != op.A {
 			return seqmc.Failf("Add:position", "Add(%d) returned %d but that position holds something else: %v", op.A, got, x.contents())
 		}
-		if got != want {
-			return seqmc.Failf("Add:position", "Add(%d) returned %d, want %d (lower bound); contents %v", op.A, got, want, x.contents())
+		// "the position at which the new value now sits": anywhere in the run of values equal to it
+		hi := want
+		for hi < len(x.model) && x.model[hi] == op.A {
+			hi++
+		}
+		if got < want || got >= hi {
+			return seqmc.Failf("Add:position", "Add(%d) returned %d, want a position in %d..%d (the run of equal values); contents %v", op.A, got, want, hi-1, x.contents())
 		}
 	case "Remove":
 		want := -1
@@ -121,8 +126,13 @@ func (x *h) Apply(op seqmc.Op) *seqmc.Fail {
 		if p, m := enum.Catch(func() { got = x.s.Remove(op.A) }); p {
 			return seqmc.Failf("Remove:panic", "Remove(%d) panicked on %v: %s", op.A, before, m)
 		}
-		if got != want {
-			return seqmc.Failf("Remove:position", "Remove(%d) = %d, want %d; contents were %v", op.A, got, want, before)
+		// "deletes one occurrence and returns its former position": any position of the run of equal values
+		hiR := want
+		for want >= 0 && hiR < len(x.model) && x.model[hiR] == op.A {
+			hiR++
+		}
+		if (want < 0 && got != -1) || (want >= 0 && (got < want || got >= hiR)) {
+			return seqmc.Failf("Remove:position", "Remove(%d) = %d, want %d..%d; contents were %v", op.A, got, want, hiR-1, before)
 		}
 		if want >= 0 {
 			x.model = append(x.model[:want:want], x.model[want+1:]...)
@@ -367,8 +377,12 @@ func main() {
 			bad := ""
 			switch {
 			case op < 3 && len(model) < 150:
-				if got := s.Add(v); got != lo {
-					bad = fmt.Sprintf("Add(%d) = %d, want %d", v, got, lo)
+				hiA := lo
+				for hiA < len(model) && model[hiA] == v {
+					hiA++
+				}
+				if got := s.Add(v); got < lo || got > hiA {
+					bad = fmt.Sprintf("Add(%d) = %d, want %d..%d", v, got, lo, hiA)
 				}
 				model = append(model, 0)
 				copy(model[lo+1:], model[lo:])
@@ -378,8 +392,12 @@ func main() {
 				if present {
 					want = lo
 				}
-				if got := s.Remove(v); got != want {
-					bad = fmt.Sprintf("Remove(%d) = %d, want %d", v, got, want)
+				hiR := lo
+				for present && hiR < len(model) && model[hiR] == v {
+					hiR++
+				}
+				if got := s.Remove(v); (!present && got != -1) || (present && (got < lo || got >= hiR)) {
+					bad = fmt.Sprintf("Remove(%d) = %d, want %d..%d", v, got, want, hiR-1)
 				}
 				if present {
 					model = append(model[:lo], model[lo+1:]...)
@@ -469,8 +487,12 @@ func bigSorted(ord order, n, mod int, kind string, calls *int) string {
 	for i := 0; i < n; i++ {
 		v := val(i)
 		want := lower(v)
-		if got := s.Add(v); got != want {
-			return fmt.Sprintf("Add(%d) at size %d returned %d, want %d", v, len(model), got, want)
+		hiA := want
+		for hiA < len(model) && model[hiA] == v {
+			hiA++
+		}
+		if got := s.Add(v); got < want || got > hiA {
+			return fmt.Sprintf("Add(%d) at size %d returned %d, want %d..%d", v, len(model), got, want, hiA)
 		}
 		model = append(model, 0)
 		copy(model[want+1:], model[want:])
@@ -496,8 +518,12 @@ func bigSorted(ord order, n, mod int, kind string, calls *int) string {
 		if k := lower(v); k < len(model) && model[k] == v {
 			want = k
 		}
-		if got := s.Remove(v); got != want {
-			return fmt.Sprintf("Remove(%d) at size %d returned %d, want %d", v, len(model), got, want)
+		hiR := want
+		for want >= 0 && hiR < len(model) && model[hiR] == v {
+			hiR++
+		}
+		if got := s.Remove(v); (want < 0 && got != -1) || (want >= 0 && (got < want || got >= hiR)) {
+			return fmt.Sprintf("Remove(%d) at size %d returned %d, want %d..%d", v, len(model), got, want, hiR-1)
 		}
 		if want >= 0 {
 			model = append(model[:want], model[want+1:]...)
